@@ -461,6 +461,11 @@ func (e *exec) commit(s *Step) {
 		defer func() { pan = recover() }()
 		id = e.rs.Commit()
 	}()
+	if dead, c := e.db.Dead(); dead && pan == nil {
+		// the code under test recovered the crash and went on: the process was killed at that write all the same
+		pan = c
+		st.Probe("crash_recovered_by_code_under_test")
+	}
 	e.db.CrashBefore(-1)
 	if pan != nil {
 		c, isCrash := pan.(simdb.Crash)
